@@ -428,10 +428,11 @@ def call_strategy(draw, names):
     args = []
     if model is None:
         return name, [draw(anything) for _ in range(crnd.randint(0, 4))]
-    if name == 'datetimeNew' and crnd.random() < 0.12:
+    if name == 'datetimeNew' and crnd.random() < 0.2:
         # huge time components that cancel each other (hour H with minute -60 H + m, ...): every component and every carry is an exactly
         # representable number, the result is an ordinary datetime
-        big = draw(st.integers(-10 ** 12, 10 ** 12))
+        ex = crnd.randint(3, 11)       # (magnitudes from the PRNG: Hypothesis' integers() favours small values)
+        big = crnd.choice([1, -1]) * crnd.randint(10 ** ex, 10 ** (ex + 1))
         small = draw(st.integers(-90, 90))
         kind = crnd.choice(['hour-minute', 'minute-second', 'second-millisecond', 'hour-second'])
         h = mi = sec = ms = 0
